@@ -15,6 +15,8 @@ pub fn ser_blob_header_into(buf: &mut BytesMut, h: &BlobHeader) -> (r: Result<()
 #[verifier::external_body]
 pub struct Meta { _p: u8 }
 
+// serialized length of a record built from these parts (header + meta + data)
+pub uninterp spec fn rec_len(key: Seq<u8>, data: Seq<u8>, meta: Option<Meta>) -> int;
 // record::Record as the blob code sees it
 #[verifier::external_body]
 pub struct Record { _p: u8 }
@@ -25,6 +27,13 @@ impl Record {
     #[verifier::external_body]
     pub fn to_partially_serialized_and_header(self) -> (r: Result<(PartiallySerializedRecord, RecordHeader), VErr>)
         ensures r.is_ok() ==> r->Ok_0.1 == self.hdr() && r->Ok_0.0.len_spec() == self.total_len() && r->Ok_0.0.hdr() == self.hdr(),
+    { unimplemented!() }
+    // Record::create (verified in unit `record`): a live record for this key and timestamp
+    #[verifier::external_body]
+    pub fn create(key: &KeyT, timestamp: u64, data: Bytes, meta: Option<Meta>) -> (r: Result<Record, VErr>)
+        ensures r.is_ok() ==> !hdr_deleted(r->Ok_0.hdr()) && r->Ok_0.hdr().timestamp == timestamp
+            && r->Ok_0.hdr().key@ == key@ && r->Ok_0.hdr().data_size == data@.len()
+            && r->Ok_0.total_len() == rec_len(key@, data@, meta) && rec_len(key@, data@, meta) >= 0,
     { unimplemented!() }
     // Record::deleted (Record::create + Header::mark_as_deleted, verified in unit `record`)
     #[verifier::external_body]
